@@ -389,6 +389,40 @@ func sortJoin(s []string) string {
 
 func ruleC08(c *Ctx) {
 	c.Explain("C08 (narrow, structural): only the gas-cost and op-table clauses are decided. The base gas cost of every opcode handler — the constants charged through applyCost on the handler's entry path — is extracted from the SSA and must equal the frozen consensus cost table embedded in the checker (a changed cost is a hard fork, i.e. a genuine break of 'gas charged per opcode matches the reference cost table'); the ops table's composite literal has key == opInfo.op for every entry and unique names. The opcode stack semantics (the value-level input→output maps of ~110 opcodes, numeric ranges, shift and splice bounds) are NOT decided: they need execution or symbolic equivalence, which are other technique families.")
+	// narrowing: (*uint256.Int).Uint64() keeps the low 64 bits. Wherever the VM narrows a stack number
+	// this way, a full-width range test of the same kind of value (LtUint64 / IsUint64 answered true)
+	// must dominate, otherwise 2^64+k is silently executed as k.
+	{
+		per := map[string][]ssa.CallInstruction{}
+		var order []string
+		for f := range c.allFuncs() {
+			if f.Pkg == nil || trimMod(f.Pkg.Pkg.Path()) != pVM || len(f.Blocks) == 0 {
+				continue
+			}
+			for _, s := range callsTo(f, false, "(*github.com/holiman/uint256.Int).Uint64") {
+				// a site in a helper that is absent from the reference inventory is charged to the
+				// reference functions that reach it (the obligation follows the code when it is moved)
+				for _, n := range c.referenceOwners(topFunc(f), 3) {
+					if _, seen := per[n]; !seen {
+						order = append(order, n)
+					}
+					per[n] = append(per[n], s)
+				}
+			}
+		}
+		sortStrings(order)
+		for _, n := range order {
+			ok, d := true, "every narrowing is range-checked"
+			for _, s := range per[n] {
+				have := factsAt(s)
+				if !have["call:(*github.com/holiman/uint256.Int).LtUint64 = true"] && !have["call:(*github.com/holiman/uint256.Int).IsUint64 = true"] {
+					ok, d = false, "Uint64() at "+c.Pos(s.Pos())+" truncates a 256-bit operand that no dominating LtUint64/IsUint64 test bounds"
+				}
+			}
+			c.Require("narrowing", n+": a 256-bit stack number is narrowed to 64 bits only behind a full-width range test", ok, "%s", d)
+		}
+		c.Floor("narrowing", 4)
+	}
 	hs := c.vmHandlers()
 	got := map[string]int64{}
 	for _, h := range hs {
